@@ -16,9 +16,41 @@ CHECKS = {
        "try_update loop (tokio code, not encoded); values are Bool.", ref="4 C02"),
 }
 
+CHECKS.update({
+ "C01": dict(
+  text="One store operation (set / cset / delete on every key position, pget / pdelete via the C04 family) from generated concrete tree shapes with "
+       "solver-chosen contents (values, plain/CAS kinds per harness, 64-bit versions, written value and version); afterwards EVERY read (get, cget, ls of "
+       "every parent, ls_root, len) is compared with a reference fold and the clean-tree invariant is re-established, so the step composes to histories "
+       "of any length; a rejected request must change nothing any read observes.",
+  note=BASE + "Bounds: keys over {a,b}, depth <= 2, <= 2 children per node (model map capacity), values Bool. Outside: import (JSON text decoding), "
+       "Worterbuch-level wrappers beyond what C03/C08 harnesses cover, several clients.", ref="4 C01"),
+ "C04": dict(
+  text="For every pattern of <= 2 segments over {a,b,?,#} (legal and illegal) and generated store shapes: Store::get_matches and Store::delete_matches "
+       "return/remove exactly the keys of the documented relation (values, kinds and versions symbolic), illegal multi-wildcards are rejected and change "
+       "nothing; Subscribers::get_subscribers notifies a subscriber of the pattern for exactly the same keys (all 6 keys of the menu).",
+  note=BASE + "The pattern dimension is a finite generated menu (one harness per pattern and shape), the solver quantifies over the stored contents; "
+       "known finding KF-C04-hash-matches-prefix (K/# matches K in the store) is reported, not suppressed. Outside: patterns of >= 3 segments, auth::pattern_matches (C15).",
+  ref="4 C04"),
+ "C05": dict(
+  text="Same generated one-step family as C01: after every set / cset / delete (accepted or rejected) ls of each parent and the root listing equal the "
+       "distinct next segments of the reference keys, 'no such value' exactly when nothing is at or below the parent.",
+  note=BASE + "Outside the claim so far: the lists actually pushed to ls-subscribers (Worterbuch::notify_ls_subscribers), pls.", ref="4 C05"),
+ "C06": dict(
+  text="Whole lock operations of the real store (Store::lock, acquire_lock, unlock, unlock_all and Lock::release/queue) from directly constructed lock "
+       "states (free; held with 0, 1, 2 waiters), caller chosen by the solver: single holder, lock Ok iff free or holder, confirmation exactly once and "
+       "exactly at hand-over, first-come order, non-holder release refused, waiter cancellation, session end, lock tree clean afterwards.",
+  note=BASE + "async/.await of store.rs is lexically de-sugared for the Kani build (gen/deasync.py; counterexamples are replayed against the original async "
+       "code with real tokio). Bounds: one key, <= 3 clients, <= 2 waiters. Outside: the spawned confirmation task in protocol v1, Worterbuch::locked monitoring.",
+  ref="4 C06"),
+ "C17": dict(
+  text="Panic-freedom (panic!, unwrap/expect, index, arithmetic overflow, debug_assert!, unreachable!) of every worterbuch function reached by the C01, C02, "
+       "C04 and C06 harness families for all their symbolic inputs, plus the explicit clean-tree invariants (store tree and lock tree) after every operation.",
+  note=BASE + "Outside: malformed lines (decoder), task isolation between sessions (tokio), resource exhaustion, code not reached by those families.", ref="4 C17"),
+})
+
 NA = {
 }
-PENDING = ["C01","C03","C04","C05","C06","C07","C08","C09","C10","C11","C12","C13","C15","C16","C17","C19"]
+PENDING = ["C03","C07","C08","C09","C10","C11","C12","C13","C15","C16","C19"]
 NA_FIXED = {
  "C14": "the property is the serde_json text codec composed with serde derives; the real codec exhausts 17-19 GB / 10 min under Kani/CBMC for a one-field message (measured), and a model codec would only verify the model",
  "C18": "ReDB is an on-disk B-tree behind a background writer task and file I/O; neither the database nor the batching schedule can be executed symbolically here and no pure kernel of the property remains",
